@@ -662,28 +662,38 @@ func main() {
 	}
 	cfg := hx.ParseFlags()
 	g := &gen{r: cfg.Rand}
-	imports := "model.Parser model.Mouse model.Input model.InputCheck"
+	imports := "model.Parser model.Mouse model.Input model.InputCheck model.InputColour"
 	handle := hx.NewStream("handle", imports, "hcase", "c03_handle_mismatches", "c03_handle_violations")
 	mouse := hx.NewStream("mouse", imports, "mcase", "c03_mouse_mismatches", "c03_mouse_violations")
 	startup := hx.NewStream("startup", imports, "scase", "c03_startup_mismatches", "c03_startup_violations")
 	startup.Known, startup.KnownClass = "c03_startup_known", "startup-typeahead"
-	handle.ShardMax, startup.ShardMax = 150, 100
+	colour := hx.NewStream("colour", imports, "ccase", "c03_colour_mismatches", "c03_colour_violations")
+	handle.ShardMax, startup.ShardMax, colour.ShardMax = 150, 100, 300
 
 	nDirect, nLoop, nMouse, nStart, maxTok := 750, 600, 400, 90, 8
 	nFastDirect, nFastLoop := 110, 70
 	nClip := 60
+	nColDirect, nColLoop, nColSynth := 260, 60, 120
 	raceDelays := []time.Duration{0, 45 * time.Millisecond, 49500 * time.Microsecond, 50 * time.Millisecond, 50500 * time.Microsecond, 55 * time.Millisecond}
 	sizeDelays := []time.Duration{0, 99 * time.Millisecond, 101 * time.Millisecond}
 	if cfg.Thorough() {
 		nDirect, nLoop, nMouse, nStart, maxTok = 12000, 9000, 6000, 1500, 12
 		nFastDirect, nFastLoop = 1600, 1000
 		nClip = 900
+		nColDirect, nColLoop, nColSynth = 5000, 1200, 2500
 		for i := 0; i < 120; i++ {
 			raceDelays = append(raceDelays, 49*time.Millisecond+time.Duration(g.n(2000))*time.Microsecond)
 		}
 		for i := 0; i < 30; i++ {
 			sizeDelays = append(sizeDelays, 99*time.Millisecond+time.Duration(g.n(2000))*time.Microsecond)
 		}
+	}
+
+	if os.Getenv("C03_ONLY") == "colour" {
+		// development aid: only the colour stream
+		_, st := colourCases(g, colour, nColDirect, nColLoop, nColSynth)
+		cfg.Write("C03", "colour only", []*hx.Stream{colour}, map[string]interface{}{"colour_stream": st}, nil)
+		return
 	}
 
 	// ---- handle stream
@@ -814,6 +824,9 @@ func main() {
 	}
 	tStart := time.Since(t0)
 
+	// ---- colour stream: the content of the colour replies against the real Query* calls
+	tColour, colourStats := colourCases(g, colour, nColDirect, nColLoop, nColSynth)
+
 	// ---- timing samples
 	t0 = time.Now()
 	race, dv1 := cursorRace(raceDelays)
@@ -828,11 +841,13 @@ func main() {
 		"loop_seconds":      tLoop.Seconds(),
 		"startup_seconds":   tStart.Seconds(),
 		"timing_seconds":    tTiming.Seconds(),
+		"colour_seconds":    tColour.Seconds(),
+		"colour_stream":     colourStats,
 		"startup_reruns":    startupFlakes,
 		"cursor_reply_race": race,
 		"size_reply_race":   srace,
 		"timing_note":       "partial: replies are sent at sampled real delays around the 50 ms (CursorPosition) and 100 ms (reportWinsize) time-outs; only liveness of the loop afterwards is checked",
 	}
-	rule := "handle: a case is non-trivial when the implementation delivered an event other than a plain key, handed a cursor position or a clipboard text to a waiting caller, or crashed/wedged; mouse: parseMouseEvent accepted or panicked; startup: at least one capability detected"
-	cfg.Write("C03", rule, []*hx.Stream{handle, mouse, startup}, extra, append(dv1, dv2...))
+	rule := "handle: a case is non-trivial when the implementation delivered an event other than a plain key, handed a cursor position or a clipboard text to a waiting caller, or crashed/wedged; mouse: parseMouseEvent accepted or panicked; startup: at least one capability detected; colour: a call to QueryColor / QueryForeground / QueryBackground passed its guards, wrote its query and returned"
+	cfg.Write("C03", rule, []*hx.Stream{handle, mouse, startup, colour}, extra, append(dv1, dv2...))
 }
